@@ -108,6 +108,7 @@ where
     trait SpliceFn {
         fn read(&mut self) -> BoxFuture<'_, IoResult<usize>>;
         fn write(&mut self, more: bool) -> BoxFuture<'_, IoResult<usize>>;
+        fn shutdown(&mut self) -> IoResult<()>;
     }
     type BoxSpliceFn = Box<dyn SpliceFn + Send>;
     struct NullFn;
@@ -118,10 +119,13 @@ where
         fn write(&mut self, _more: bool) -> BoxFuture<'_, IoResult<usize>> {
             unreachable!()
         }
+        fn shutdown(&mut self) -> IoResult<()> {
+            unreachable!()
+        }
     }
     #[cfg(target_os = "linux")]
     let mut pipe_fn: Box<dyn SpliceFn + Send> = if have_rawfd {
-        use crate::common::splice::{async_splice, pipe};
+        use crate::common::splice::{async_splice, pipe, shutdown_write};
         use futures::FutureExt;
 
         struct PipeFn {
@@ -136,6 +140,9 @@ where
             }
             fn write(&mut self, more: bool) -> BoxFuture<'_, IoResult<usize>> {
                 async_splice(&mut self.pipe.0, &self.dfd, self.bufsz, more).boxed()
+            }
+            fn shutdown(&mut self) -> IoResult<()> {
+                shutdown_write(&self.dfd)
             }
         }
 
@@ -201,6 +208,13 @@ where
                 break;
             }
         }
+    }
+
+    if have_rawfd {
+        // relay the end of stream in splice mode too, as the stream and frame modes do below
+        pipe_fn
+            .shutdown()
+            .with_context(|| format!("shutdown {})", dst.name))?;
     }
 
     if let Some(mut s) = dst.stream {
